@@ -305,3 +305,120 @@ Definition sparse_wfb (D : nat) (t : sparse_theta) : bool :=
   && Nat.eqb (length (sW0 t)) (length (sW t))
   && Nat.eqb (length (sV1 t)) (length (sV2 t)) && Nat.eqb (length (sV0 t)) (length (sV2 t)).
 Definition inter_wfb (D : nat) (t : inter_theta) : bool := rectb D (iW t) && rectb D (iV2 t).
+
+(* ---------------------------------------------------------------- vocabulary of the source translation
+   (Generated/SrcPredict.v, configurations C09_* of harness/src_functions.py).  Each definition is the meaning of ONE
+   attribute / numpy / scipy call of the translated functions; which call is applied to what is read from the source.
+
+   Arrays: [vec] = a float array of shape (n,), [mat] = a float array of shape (n, D) as the list of its rows,
+   [list Z] = an integer array of shape (n,), [idmat] = an integer array of shape (n, arity) - the arity is kept
+   because shape (0, arity) has no row to read it from.  The elementwise operators  vec + vec = vadd, mat + mat = madd,
+   mat * mat = mmul, float + vec = sadd  are numpy's for operands of EQUAL shape (numpy's broadcasting of unequal shapes
+   and its ValueError for incompatible ones are not represented, as in the header of this file). *)
+Definition qnum := Qc.
+Definition vec := list Qc.
+Definition mat := list (list Qc).
+Record idmat := { im_arity : nat; im_rows : list (list Z) }.
+(* a ScreenBase object as the prediction code reads it: sample_ids, treatment_ids *)
+Record pydata := { pd_sample_ids : list Z; pd_treatment_ids : idmat }.
+
+Definition ERR_SHAPE : Z := 8%Z.     (* ValueError: could not broadcast input array / stacked arrays of unequal shape *)
+
+(* a[ids, ...] = a[ids]: integer fancy indexing along axis 0 - a new array with one entry (row) per index, in order;
+   a negative index i reads i + n; an index outside [-n, n) raises IndexError *)
+Definition np_take {A} (arr : list A) (ids : list Z) : result (list A) :=
+  res_map_all (fun i => match py_index (length arr) i with
+                        | Some k => match nth_error arr k with Some x => Ok x | None => Err ERR_INDEX end
+                        | None => Err ERR_INDEX
+                        end) ids.
+(* a[:, k] on a 2-d integer array: column k (negative k counts from the end; outside the arity: IndexError) *)
+Definition np_col (a : idmat) (k : Z) : result (list Z) :=
+  match py_index (im_arity a) k with
+  | Some j => Ok (map (fun r => nth j r 0%Z) (im_rows a))
+  | None => Err ERR_INDEX
+  end.
+(* a.shape[0], a.shape[1] of a 2-d integer array *)
+Definition im_shape0 (a : idmat) : Z := Z.of_nat (length (im_rows a)).
+Definition im_shape1 (a : idmat) : Z := Z.of_nat (im_arity a).
+(* a == v, elementwise on an integer array *)
+Definition np_eq_scalar (a : list Z) (v : Z) : list bool := map (fun x => (x =? v)%Z) a.
+(* a[mask, ...] = 0.0: every entry (row) of axis 0 where the boolean mask holds becomes zero ([z] = "all zeros of the
+   same shape": zscal for a number, zrow for a row); a mask of another length than axis 0 is an IndexError *)
+Definition np_mask_zero {A} (z : A -> A) (a : list A) (m : list bool) : result (list A) :=
+  if Nat.eqb (length m) (length a) then Ok (map2 (fun (b : bool) r => if b then z r else r) m a) else Err ERR_INDEX.
+(* float + vec *)
+Definition sadd (x : Qc) (v : list Qc) : list Qc := map (Qcplus x) v.
+(* scipy.special.expit(x), np.clip(x, a_min=lo, a_max=hi) on a vec *)
+Definition vexpit (orc : oracle) (x : list Qc) : list Qc := map (orc ORC_EXPIT) x.
+Definition vclip (lo hi : Qc) (x : list Qc) : list Qc := map (qclip lo hi) x.
+(* 1 / p on Python floats: ZeroDivisionError for p = 0.0 *)
+Definition py_recip (p : Qc) : result Qc := if qeqb p 0 then Err ERR_ZERODIV else Ok (1 / p).
+(* np.repeat(x, repeats=n) of a scalar *)
+Definition np_repeat (x : Qc) (n : Z) : list Qc := repeat x (Z.to_nat n).
+
+(* the representation map of the linking theorems: the ScreenBase object a model screen stands for.  Every object the
+   prediction code can be handed has sample_ids of shape (n,) and treatment_ids of shape (n, arity), i.e. is
+   [pydata_of] of a model screen ([ScrN a n], "any other arity", is only meant for a other than 1 and 2: scr_okb) *)
+Definition tids1 (rows : list (Z * Z)) : idmat := {| im_arity := 1; im_rows := map (fun r => [snd r]) rows |}.
+Definition tids2 (rows : list (Z * Z * Z)) : idmat :=
+  {| im_arity := 2; im_rows := map (fun r => [snd (fst r); snd r]) rows |}.
+Definition pydata_of (s : screen) : pydata :=
+  match s with
+  | Scr1 rows => {| pd_sample_ids := map fst rows; pd_treatment_ids := tids1 rows |}
+  | Scr2 rows => {| pd_sample_ids := col_s rows; pd_treatment_ids := tids2 rows |}
+  | ScrN a n => {| pd_sample_ids := repeat 0%Z n; pd_treatment_ids := {| im_arity := a; im_rows := repeat (repeat 0%Z a) n |} |}
+  end.
+Definition scr_okb (s : screen) : bool :=
+  match s with ScrN a _ => negb (Nat.eqb a 1) && negb (Nat.eqb a 2) | _ => true end.
+
+(* ---- vocabulary of the translated helpers of models/main.py (predict_*_all, predict_*_avg) ---- *)
+(* thetas.get_theta(i) (ThetaHolder, linked to its source by C10): ValueError outside 0 .. len(thetas) - 1 *)
+Definition holder_get (h : holder) (i : Z) : result theta :=
+  if (i >? Z.of_nat (length (h_thetas h)) - 1)%Z || (i <? 0)%Z then Err ERR_HOLDER else get_theta h (Z.to_nat i).
+(* np.zeros((n,), dtype=float), np.zeros((n, m), dtype=float) *)
+Definition np_zeros1 (n : Z) : list Qc := repeat 0 (Z.to_nat n).
+Definition np_zeros2 (n m : Z) : list (list Qc) := repeat (repeat 0 (Z.to_nat m)) (Z.to_nat n).
+(* a[i, :] of a matrix (negative i counts from the end, IndexError outside) *)
+Definition np_row (a : list (list Qc)) (i : Z) : result (list Qc) :=
+  match py_index (length a) i with Some k => Ok (nth k a []) | None => Err ERR_INDEX end.
+(* a[i, :] = v: row i is overwritten by v when v has the row's length, by v's single entry repeated when v has length 1
+   (numpy broadcasting); any other length is a ValueError, a row index outside [-n, n) an IndexError *)
+Definition np_set_row (a : list (list Qc)) (i : Z) (v : list Qc) : result (list (list Qc)) :=
+  match py_index (length a) i with
+  | None => Err ERR_INDEX
+  | Some k =>
+      let w := length (nth k a []) in
+      if Nat.eqb (length v) w then Ok (firstn k a ++ v :: skipn (S k) a)
+      else if Nat.eqb (length v) 1 then Ok (firstn k a ++ repeat (nth 0 v 0) w :: skipn (S k) a)
+      else Err ERR_SHAPE
+  end.
+(* np.isnan(x).any() / np.any(np.isnan(x)): a vector of rationals holds no NaN (floating point is abstracted) *)
+Definition vec_has_nan (x : list Qc) : bool := false.
+(* x.size of a 1-d array *)
+Definition vec_size (x : list Qc) : Z := Z.of_nat (length x).
+(* np.stack(l, dtype=float) of a list of 1-d arrays: ValueError for no arrays and for arrays of unequal length *)
+Definition np_stack (l : list (list Qc)) : result (list (list Qc)) :=
+  match l with
+  | [] => Err ERR_STACK
+  | r :: rest => if forallb (fun x => Nat.eqb (length x) (length r)) rest then Ok l else Err ERR_SHAPE
+  end.
+(* x / n, a float array by a Python int: entrywise; by 0 the entries are nan / inf, which have no rational value:
+   the harness reads a non-finite entry as the error ERR_NAN (an empty array stays empty) *)
+Definition np_div_int (x : list Qc) (n : Z) : result (list Qc) :=
+  if (n =? 0)%Z then match x with [] => Ok [] | _ => Err ERR_NAN end else Ok (map (fun y => y / qofZ n) x).
+
+(* ---- vocabulary of the translated methods of SparseDrugComboInteractionMCMCSample ---- *)
+(* zip(a, b, c): stops with the shortest *)
+Fixpoint zip3 {A B C} (a : list A) (b : list B) (c : list C) : list (A * B * C) :=
+  match a, b, c with
+  | x :: a', y :: b', z :: c' => (x, y, z) :: zip3 a' b' c'
+  | _, _, _ => []
+  end.
+(* d[c, t] on the single-effect dict: KeyError when the key is absent *)
+Definition lookup_key (L : list (Z * Z * Qc)) (c d : Z) : result Qc :=
+  match lookup L c d with Some v => Ok v | None => Err ERR_KEY end.
+(* float * float *)
+Definition qmul (x y : Qc) : Qc := x * y.
+(* np.exp(x), np.log(x) on a vec: the oracle, entrywise *)
+Definition vexp (orc : oracle) (x : list Qc) : list Qc := map (orc ORC_EXP) x.
+Definition vlog (orc : oracle) (x : list Qc) : list Qc := map (orc ORC_LN) x.
